@@ -50,8 +50,8 @@ def run(tier):
                       "fuzzers) and these input sets are replayed: HintVM.tla programs incl. the extreme-operand families (every "
                       "arithmetic / rounding opcode and every point / CVT / state instruction on operands from {0, +-1, 63, 64, "
                       "+-2^30, i32::MAX, i32::MIN}, points moved to opposite ends of the 26.6 range before ISECT / IP / MD), "
-                      "Composite.tla graphs, the C01 boundary mutations of every corpus table, the C02 API drive over corpus and "
-                      "damaged fonts with hostile sizes / coordinates (incl. the auto-hinter), glyf / gvar / variation-store / "
+                      "Composite.tla graphs, Charstring.tla programs incl. an extreme-operand family (operands at the ends of the 16.16 / 16-bit ranges before every operator, CFF2 blends with negative / huge counts), the C01 boundary mutations of every corpus table, the C02 API drive over corpus and "
+                      "damaged fonts with hostile sizes / coordinates (incl. the auto-hinter, the COLR closure helpers and 32-bit index fields of COLR set to 0xFFFFFFFF / 0xFFFFFFFE), glyf / gvar / variation-store / "
                       "cmap / layout writer round trips (C08-C11, C16), hinted draws with caller memory (C12), corpus subsetting "
                       "(C17). A panic whose payload is an overflow or assertion message is a violation of this property; any "
                       "other finding is left to the property that owns it.")
@@ -59,7 +59,7 @@ def run(tier):
                       "specification arithmetic is on unbounded integers, so an overflow is never 'expected'",
                       "sites are found by execution: an overflow no input set reaches is not reported"]
     wd = vlib.workdir(PID)
-    vlib.stage_specs(wd, "vm", "read", "subset", "common")
+    vlib.stage_specs(wd, "vm", "read", "subset", "cff", "common")
     q = tier == "quick"
     out = tlc_out(ck, wd, "HintVMMC", "HintVMMC_arith.cfg", "vm_arith")
     strict(ck, "vm:extreme-operands", "fv-total", ["c02", "vm", "--programs", out, "--out", os.path.join(wd, "a.ndjson")])
@@ -73,6 +73,13 @@ def run(tier):
     out = tlc_out(ck, wd, "PackedHostile", "PackedHostile.cfg", "packed")
     strict(ck, "packed-deltas", "fv-total", ["c01", "packed", "--cases", out, "--out", os.path.join(wd, "d.ndjson")])
     os.remove(out)
+    # charstring programs: the model-checked family and the extreme-operand family (enumerated only) of CharstringMC
+    out = tlc_out(ck, wd, "CharstringMC", "CharstringMC_extreme.cfg", "cs_extreme")
+    strict(ck, "charstring:extreme-operands", "fv-total", ["cs", "replay", "--cases", out, "--out", os.path.join(wd, "p.ndjson")])
+    os.remove(out)
+    out = tlc_out(ck, wd, "CharstringMC", "CharstringMC_quick.cfg" if q else "CharstringMC_thorough.cfg", "cs_programs")
+    strict(ck, "charstring:programs", "fv-total", ["cs", "replay", "--cases", out, "--out", os.path.join(wd, "q.ndjson")])
+    os.remove(out)
     # C01 mutations: record + derive with the release build (the sessions do not depend on the profile), replay strict
     side, trace = os.path.join(wd, "sessions.json"), os.path.join(wd, "sessions.ndjson")
     vlib.run_harness("fv-total", ["c01", "record", "--sessions", side, "--per-table", 16 if q else 200, "--out", trace], timeout=3000)
@@ -82,7 +89,7 @@ def run(tier):
         strict(ck, "read-mutations", "fv-total", ["c01", "mutate", "--sessions", side, "--muts", muts, "--drive-every", 6, "--out", os.path.join(wd, "e.ndjson")])
     seeds = [vlib.seed() + i for i in range(2 if q else 10)]
     for s in seeds:
-        strict(ck, "api-drive:%d" % s, "fv-total", ["c02", "corpus", "--seed", s, "--mutations", 24 if q else 80, "--field-stride", 18 if q else 3, "--out", os.path.join(wd, "f.ndjson")])
+        strict(ck, "api-drive:%d" % s, "fv-total", ["c02", "corpus", "--seed", s, "--mutations", 24 if q else 80, "--field-stride", 18 if q else 3, "--wide-stride", 5 if q else 1, "--out", os.path.join(wd, "f.ndjson")])
     s0 = vlib.seed()
     strict(ck, "glyf", "fv-write", ["c09", "random", "--seed", s0, "--n", 200 if q else 1500, "--out", os.path.join(wd, "g.ndjson")])
     strict(ck, "gvar", "fv-write", ["c10", "random", "--seed", s0, "--n", 150 if q else 800, "--out", os.path.join(wd, "h.ndjson")])
